@@ -9,6 +9,7 @@ import os
 from .. import classify, drive, hist, world
 from ..oracle import refhash, xmlread
 
+TECHNIQUE = 'runtime monitoring: offline checker of the recorded history (generation, format, digest, action) against the first-recorded-value specification; inner space of length<=3 sequences enumerated'
 LEVEL = "exploration"
 RULE = (
     "case = 1-4 files (root, sub folder, nested history) x generation sequence of length 1-6 over non-empty format subsets x "
